@@ -26,16 +26,17 @@ type GraphOpts struct {
 }
 
 type graphGen struct {
-	r     *Rng
-	o     GraphOpts
-	units []string
-	nid   int
-	colls []string // global names bound to mutable collections (list/dict/set)
-	lists []string
-	dicts []string
-	sets  []string
-	funcs []string // zero-arg callable globals
-	any   []string // every global
+	r         *Rng
+	o         GraphOpts
+	units     []string
+	nid       int
+	colls     []string // global names bound to mutable collections (list/dict/set)
+	lists     []string
+	dicts     []string
+	sets      []string
+	funcs     []string // zero-arg callable globals
+	any       []string // every global
+	hashables []string
 }
 
 func (g *graphGen) fresh(p string) string {
@@ -141,6 +142,31 @@ func (g *graphGen) bind(kind, expr string) string {
 }
 
 func (g *graphGen) block() {
+	switch n := g.r.Intn(23); n {
+	case 20: // collections at and around the table's growth thresholds
+		sz := []int{7, 8, 9, 12, 13, 14, 25, 26, 27, 52, 53}[g.r.Intn(11)]
+		switch g.r.Intn(3) {
+		case 0:
+			g.bind("dict", fmt.Sprintf("{q: str(q) for q in range(%d)}", sz))
+		case 1:
+			if g.o.D.Set {
+				g.bind("set", fmt.Sprintf("set([(\"e\", q) for q in range(%d)])", sz))
+			} else {
+				g.bind("dict", fmt.Sprintf("{(\"key-%%d\" %% q): [q] for q in range(%d)}", sz))
+			}
+		default:
+			g.bind("list", fmt.Sprintf("[[q] for q in range(%d)]", sz))
+		}
+		return
+	case 21, 22: // hashable compound values (usable as dict keys / set elements by readers)
+		h := g.bind("", fmt.Sprintf("struct(a=%d, b=%q, c=(1, (2, \"x\")))", g.r.Intn(9), g.r.Pick([]string{"s", "a-long-string-over-12-bytes"})))
+		g.hashables = append(g.hashables, h)
+		if g.r.Bool() {
+			h2 := g.bind("", fmt.Sprintf("(%s, %d, \"t\")", h, g.r.Intn(5)))
+			g.hashables = append(g.hashables, h2)
+		}
+		return
+	}
 	switch n := g.r.Intn(20); n {
 	case 0:
 		g.bind("list", fmt.Sprintf("[%s, %s, %s]", g.scalar(), g.ref(), g.scalar()))
@@ -289,7 +315,7 @@ func (g *graphGen) leaf2(kind string) string {
 
 // GraphMeta names the globals a generated module binds, by kind.
 type GraphMeta struct {
-	Any, Lists, Dicts, Sets, Funcs []string
+	Any, Lists, Dicts, Sets, Funcs, Hashables []string
 }
 
 // GraphModule generates a module program.
@@ -323,5 +349,5 @@ func GraphModuleMeta(r *Rng, o GraphOpts) ([]string, GraphMeta) {
 		}
 		g.block()
 	}
-	return g.units, GraphMeta{Any: g.any, Lists: g.lists, Dicts: g.dicts, Sets: g.sets, Funcs: g.funcs}
+	return g.units, GraphMeta{Any: g.any, Lists: g.lists, Dicts: g.dicts, Sets: g.sets, Funcs: g.funcs, Hashables: g.hashables}
 }
